@@ -930,3 +930,81 @@ Example C06_cheby_eigenvector_example scale degree : degree = 2 \/ degree = 3 ->
      = cheb ((dP scale - lamE scale) / cP scale) degree / tau (cP scale) (dP scale) degree * (vget xsE i - vget x0E i)) /\
   cheb ((dP false - lamE false) / cP false) 2 / tau (cP false) (dP false) 2 = qc (-839) 1081.
 Proof. exact (cheby_eigenvector_example scale degree). Qed.
+
+(* =====================================================================================
+   9. BLOCK VALUE TYPES: ONE RUN-TIME CONDITION ON math::inverse (InverseTwoSided.v, InverseTwoSidedUses.v).
+   C16_inverse_two_sided: over a field a right inverse of a b x b block is a left inverse, and at the exact rationals
+   math::inverse also succeeds on its own result.  So the hypothesis "math::inverse succeeded a SECOND time, on its own
+   result" (sinv (sinv x) <> 0) of the closed block theorems above is redundant: what remains is the only run-time condition
+   of the C++ -- math::inverse passed its assertion on every pivot block, i.e. the stored D_k = inverse(pivot_k) is not the
+   out-of-domain default 0.  The older theorems are kept; each theorem below SUPERSEDES the one named in its comment.
+   ===================================================================================== *)
+From Amgcl Require Import InversePivotQc InverseTwoSided InverseTwoSidedUses OneInverseExamples.
+
+(* supersedes C06_nc_block_inverse_two_sided (hypothesis  sinv (sinv x) <> 0  dropped -- it is now a conclusion) *)
+Theorem C06_nc_block_inverse_two_sided_one_hypothesis (b : nat) (x : BlockS QcS b) :
+  sinv x <> s0 -> x * sinv x = s1 /\ sinv x * x = s1 /\ sinv (sinv x) <> s0 /\ sinv (sinv x) = x.
+Proof.
+  exact (BlockS_inv_two_sided_ord QcS b QcS_field QcS_eqb eq_refl QcS_lt_irrefl QcS_lt_trans QcS_abs_0 QcS_abs_pos x).
+Qed.
+Print Assumptions C06_nc_block_inverse_two_sided_one_hypothesis.
+
+(* supersedes C06_nc_ilu0_exact_on_pattern_blocks (hypothesis  D_k <> 0 /\ sinv D_k <> 0  weakened to  D_k <> 0) *)
+Theorem C06_nc_ilu0_exact_on_pattern_blocks_one_inverse (b : nat) (A : crs (BlockS QcS b)) (junk : vec (BlockS QcS b))
+        (L U : crs (BlockS QcS b)) (D : vec (BlockS QcS b)) :
+  wf A = true -> ncols A = nrows A ->
+  (forall i, i < nrows A -> sorted_strict (nth i (rows A) []) = true) ->
+  has_diag A = true ->
+  ilu0 A junk = Ok (L, U, D) ->
+  (forall k, k < nrows A -> vget D k <> s0) ->
+  forall i j, i < nrows A -> has_col j (nth i (rows A) []) = true ->
+    lu_entry L U D i j = mget A i j.
+Proof. exact (nc_ilu0_exact_on_pattern_blocks_one_inverse b A junk L U D). Qed.
+Print Assumptions C06_nc_ilu0_exact_on_pattern_blocks_one_inverse.
+
+(* supersedes C06_nc_ilu0_closed_pattern_exact_solve at BlockS QcS b (its Section hypothesis Hinv and  sinv D_k <> 0  are
+   discharged; there was no closed block instance of the closed-pattern solve before) *)
+Theorem C06_nc_ilu0_closed_exact_solve_blocks_one_inverse (b : nat) (A : crs (BlockS QcS b)) (junk : vec (BlockS QcS b))
+        (L U : crs (BlockS QcS b)) (D b0 x0 : vec (BlockS QcS b)) :
+  wf A = true -> ncols A = nrows A ->
+  (forall i, i < nrows A -> sorted_strict (nth i (rows A) []) = true) ->
+  has_diag A = true -> pat_closed A ->
+  ilu0 A junk = Ok (L, U, D) ->
+  (forall k, k < nrows A -> vget D k <> s0) ->
+  length b0 = nrows A -> length x0 = nrows A ->
+  forall i, i < nrows A -> Ax A (ilu_apply L U D b0 x0) i = vget b0 i.
+Proof. exact (nc_ilu0_closed_exact_solve_blocks_one_inverse b A junk L U D b0 x0). Qed.
+Print Assumptions C06_nc_ilu0_closed_exact_solve_blocks_one_inverse.
+
+(* supersedes C06_nc_ilu0_tridiagonal_exact_solve_blocks (hypothesis  D_k <> 0 /\ sinv D_k <> 0  weakened to  D_k <> 0) *)
+Theorem C06_nc_ilu0_tridiagonal_exact_solve_blocks_one_inverse (b : nat) (A : crs (BlockS QcS b)) (junk : vec (BlockS QcS b))
+        (L U : crs (BlockS QcS b)) (D b0 x0 : vec (BlockS QcS b)) :
+  wf A = true -> ncols A = nrows A ->
+  (forall i, i < nrows A -> sorted_strict (nth i (rows A) []) = true) ->
+  has_diag A = true -> tridiagonal A ->
+  ilu0 A junk = Ok (L, U, D) ->
+  (forall k, k < nrows A -> vget D k <> s0) ->
+  length b0 = nrows A -> length x0 = nrows A ->
+  forall i, i < nrows A -> Ax A (ilu_apply L U D b0 x0) i = vget b0 i.
+Proof. exact (nc_ilu0_tridiagonal_exact_solve_blocks_one_inverse b A junk L U D b0 x0). Qed.
+Print Assumptions C06_nc_ilu0_tridiagonal_exact_solve_blocks_one_inverse.
+
+(* non-vacuity (OneInverseExamples.v): block tridiagonal W = [X a .; c X I; . c X] of 3 x 3 blocks whose diagonal block is the
+   NON-SYMMETRIC X = [[0,2,1],[1,1,0],[3,0,1]] of C16_inverse_two_sided_nonvacuous -- X_00 = 0 and the pivot search of column 0
+   selects row 2, so math::inverse exchanges rows; a = [0 0 0; 1 1 0; 0 0 0] does not commute with X.  Every hypothesis of the
+   three ILU(0) theorems above holds with the single condition D_k <> 0; D_0 = inverse(X), the multiplier is c * X^-1 and not
+   X^-1 * c; the conclusions computed independently: (I+L)(U+D^-1) = W on the pattern and apply() returns xs for rhs = W xs *)
+Example C06_nc_ilu0_one_inverse_nonvacuous :
+  (Inverse.find_pivot 3 (blk_list oi_X) (seq 0 3) 0 = 2 /\ seqb (sadj oi_X) oi_X = false /\ sinv oi_X <> s0) /\
+  wf oi_W = true /\ ncols oi_W = nrows oi_W /\
+  (forall i, i < nrows oi_W -> sorted_strict (nth i (rows oi_W) []) = true) /\
+  has_diag oi_W = true /\ tridiagonal oi_W /\ pat_closed oi_W /\
+  length oi_rhs = nrows oi_W /\
+  oi_X * oi_a <> oi_a * oi_X /\
+  ilu0 oi_W [] = Ok (oi_L, oi_U, oi_D) /\
+  (forall k, k < nrows oi_W -> vget oi_D k <> s0) /\
+  vget oi_D 0 = sinv oi_X /\ mget oi_L 1 0 = oi_c * sinv oi_X /\ mget oi_L 1 0 <> sinv oi_X * oi_c /\
+  (forall i j, i < nrows oi_W -> has_col j (nth i (rows oi_W) []) = true ->
+     seqb (lu_entry oi_L oi_U oi_D i j) (mget oi_W i j) = true) /\
+  oi_veq (ilu_apply oi_L oi_U oi_D oi_rhs [s0; s0; s0]) oi_xs = true.
+Proof. exact (conj oi_X_row_swap_nonsymmetric oi_ilu0_one_inverse_nonvacuous). Qed.
